@@ -236,6 +236,16 @@ func genParts(t *rapid.T) c14PartsArgs {
 		a.Coef = append(make([]byte, lz-2), a.Coef...)
 	}
 	nd := ref.DecLen(c)
+	if ir(t, 0, 11, "tinyLong") == 0 {
+		// a long coefficient that is almost all trailing zeros (m * 10^k, m below 100, k up to 1200) at an exponent
+		// that brings the value to the bottom of the range: representable iff the zeros absorb the exponent
+		// excess, however many bytes that takes
+		k := ir(t, 40, 1200, "k")
+		m := bi(int64(ir(t, 1, 99, "m")))
+		a.Coef = new(big.Int).Mul(m, ref.Pow10(k)).Bytes()
+		a.Exp = int32(ref.Emin - k + []int{0, 0, 1, 2, -1, -2, 30}[ir(t, 0, 6, "slack")])
+		return a
+	}
 	if ir(t, 0, 11, "topBand") == 0 {
 		// exponent above 6111 absorbed by a short coefficient that lands next to the largest one
 		lead, e := topBandLead(t, 35)
